@@ -1263,6 +1263,14 @@ class Prims:
         # name the bins by an array constant so that the axioms below have if-free triggers
         barr = z3.Const(f"bins!{fresh('b').decl().name()}", z3.ArraySort(I, bins.elem_sort))
         st.assume(forall(j, z3.Implies(in_range(j, 0, nb), z3.Select(barr, j) == bins.at(j)), patterns=[z3.Select(barr, j)]))
+        bins0 = bins
+        try:
+            # second trigger: from the bins' own element term to its array name (only when that term is a plain application)
+            t0 = bins0.at(j)
+            if z3.is_app(t0) and t0.decl().kind() == z3.Z3_OP_UNINTERPRETED and t0.num_args() == 1 and t0.arg(0).eq(j):
+                st.assume(forall(j, z3.Implies(in_range(j, 0, nb), z3.Select(barr, j) == t0), patterns=[t0]))
+        except z3.Z3Exception:
+            pass
         bins = SSeq(nb, lambda t, barr=barr: z3.Select(barr, t), kind="array", elem_sort=bins.elem_sort, name="bins")
         D = z3.Function(f"digitize!{fresh('d').decl().name()}", I, I)
         below = (lambda b, xv: V.v_lt(b, xv)) if right is True else ((lambda b, xv: V.v_le(b, xv)) if right is False else (lambda b, xv: z3.If(right, V.v_lt(b, xv), V.v_le(b, xv))))
